@@ -70,6 +70,19 @@ def run(ctx, replay):
     # pass 2 -- all five invariants on the traces that conform
     vcore.validate_all(ctx, "NodeRecoveryTrace", "NodeRecoveryTrace.cfg", ctx.accepted_path, describe=describe, dfs=False, max_rejections=400)
 
+    # late data: a family outside `ahead` + 15 minutes but inside `behind` (late data still accepted): the WAL GC task
+    # must leave its log alone (Writable = TRUE), late entries are applied, flushed and read back
+    trl = os.path.join(ctx.scratch, "node-late.ndjson")
+    summ, rc, _ = ctx.run_vdrive(["node", "--seed", ctx.seed, "--histories", 0, "--images", 0, "--late", 6 if thorough else 2,
+                                  "--out", trl, "--scratch", scr], timeout=1200)
+    for u in summ["unresolved"]:
+        raise vcore.Unresolved("node driver (late): %s" % u)
+    ctx.extra["late_write_histories"] = summ["traces"]
+
+    def describe_late(sig, lines, rel, info):
+        return describe(sig, lines, rel, info) + ":late-data"
+    vcore.validate_all(ctx, "NodeRecoveryTrace", "NodeRecoveryTrace_late.cfg", trl, describe=describe_late, dfs=False, max_rejections=20)
+
     lines = vcore.read_lines(tr)
     clean = os.path.join(ctx.scratch, "node-clean.ndjson")
     with open(clean, "w") as f:
